@@ -1182,6 +1182,22 @@ func (r *rtCase) execB(e *lp.Exec, lg *capLogger, f []string) {
 	fmt.Fprintf(&r.key, "B%d:%d:%d:%d,", len(msgs), werr, rerr, len(rcv.delivered))
 	r.nt = true
 	e.Count("rt_ops", "batch")
+	if async { // distribution of the send-queue batches: how many met a full queue
+		nref := 0
+		for _, x := range refused {
+			if x {
+				nref++
+			}
+		}
+		switch {
+		case nref == 0:
+			e.Count("sendq", "all-accepted")
+		case nref == len(refused):
+			e.Count("sendq", "all-refused")
+		default:
+			e.Count("sendq", "some-refused")
+		}
+	}
 	// c12-roundtrip on the batch: the data messages, in order, each exactly once, type and payload unchanged
 	queueOnly := true // the only refusals are "send queue full": then the accepted messages must arrive, the refused ones not
 	for i := range msgs {
